@@ -216,7 +216,7 @@ def jobs(prop, tier, only_fn=None):
         plan = [(f, ENTRIES[i % 2 if quick else i % 4]) for i, f in enumerate(fmts)]
         if not quick:
             plan += [(f, e) for f in CORE[:16] for e in ENTRIES[1:]]
-        plan += [(f, e) for f in (CORE[:6] + ["ab%lc|"] if quick else CORE[:24] + ["%lc", "ab%lc|"]) for e in (STREAM_ENTRIES[:2] if quick else STREAM_ENTRIES)]
+        plan += [(f, e) for f in (CORE[:8] + ["ab%lc|"] if quick else CORE[:24] + ["%lc", "ab%lc|"]) for e in (STREAM_ENTRIES[:2] if quick else STREAM_ENTRIES)]
     elif prop in ("C01", "C02"):
         plan = [(f, ENTRIES[0]) for f in (["%d", "%s", "%.2s", "%5s", "%c", "%x", "%*d", "%s|%d", "ab%lc|"] if quick else fmts)]
         dmaxes = [4, 12] if quick else [1, 2, 3, 4, 6, 9, 13, 24]
